@@ -171,4 +171,28 @@ theorem C13_code_filter_init (excl incl : Option (List Sp)) :
   rcases excl with _ | _ | ⟨a, as⟩ <;> rcases incl with _ | _ | ⟨b, bs⟩ <;>
     simp [Atsim.Gen.Logic.filter_init, modeCurrent]
 
+/-! ## The code itself: the four filtered views
+
+`Atsim.Gen.Logic.filter_pair / filter_eam_embed / filter_eam_density / filter_eam_density_fs` are the four properties of `FilteredConfigParser` as regenerated on every
+run: each keeps the entries of the wrapped parser for which `_check_tuple` accepts the species the entry mentions - the pair of a `[Pair]` entry, the one species of an
+`[EAM-Embed]` / `[EAM-Density]` entry (as the one-element tuple `(p.species,)`), the (central, neighbour) pair of a Finnis-Sinclair density. -/
+namespace ViewTie
+open Atsim.Gen.Logic
+
+def ofPair (e : PairEnt) : Entry := ⟨e.species, e.id⟩
+def ofEl (e : ElEnt) : Entry := ⟨[e.species], e.id⟩
+
+end ViewTie
+
+open Atsim.Gen.Logic ViewTie in
+/-- **code tie**: all four views are the model's `filteredView` (and hence `deleteByHand`: `C13_filter_eq_delete`), in the wrapped parser's order -/
+theorem C13_code_views (S : List Sp) (ex : Bool) (pairs : List PairEnt) (els : List ElEnt) :
+    (filter_pair S ex pairs).map ofPair = filteredView ex S (pairs.map ofPair) ∧
+    (filter_eam_embed S ex els).map ofEl = filteredView ex S (els.map ofEl) ∧
+    (filter_eam_density S ex els).map ofEl = filteredView ex S (els.map ofEl) ∧
+    (filter_eam_density_fs S ex pairs).map ofPair = filteredView ex S (pairs.map ofPair) := by
+  refine ⟨?_, ?_, ?_, ?_⟩ <;>
+    simp [filter_pair, filter_eam_embed, filter_eam_density, filter_eam_density_fs, filteredView, List.filter_map, C13_code_check_tuple, ofPair, ofEl, Function.comp_def]
+
+
 end Atsim.C13
